@@ -2,8 +2,9 @@
 //!
 //! `c19.hdr` (in-process): a `Header` is made from any 80 bytes by transmute (it is `repr(C, packed)`, all fields u8).
 //!   line: c19.hdr hdr=<80 bytes hex> | valid=<0|1> banks=<n> rombytes=<n> rambytes=<n> cart=<0|1|3|n|panic> pmsg=<msg>
-//!   `cart` identifies the state `create_cart_state` built by its behaviour (write 0x7f to 0x2000, read the bank:
-//!   NullCartState 1, MBC1 0x1f, MBC3 0x7f); its panic is a plain Rust panic, caught with catch_unwind.
+//!   `cart` identifies the state `create_cart_state` built by its behaviour on a 128-bank twin header (write 0x7f
+//!   to 0x2000, read the bank: NullCartState 1, MBC1 0x1f, MBC3 0x7f); its panic is a plain Rust panic, caught
+//!   with catch_unwind.
 //!   exhaustive over the checksum byte x header fillings, all 256 type bytes, all ROM/RAM code bytes
 //!   (thorough: all 256x256 ROM/RAM code pairs).
 //!
@@ -60,21 +61,35 @@ fn hdr_line(bytes: [u8; 80], w: &mut dyn Write) {
   let banks = h.get_rom_bank_count();
   let romb = h.get_rom_size_bytes();
   let ramb = h.get_ram_size_bytes();
-  let r = std::panic::catch_unwind(std::panic::AssertUnwindSafe(|| {
+  // Which CartState was built is read off its behaviour.  The bank registers wrap to the cartridge's size, so
+  // the three states only differ observably on a large cartridge: the arm taken depends on the type byte alone
+  // (the translator insists on `match self.cart_type`), hence a twin header with the same type byte and
+  // 128 ROM banks / 32 KiB RAM is asked as well.  Both must agree on panic / no panic.
+  let own = std::panic::catch_unwind(std::panic::AssertUnwindSafe(|| {
     let mut st = h.create_cart_state();
     st.write_rom(0x2000, 0x7f);
     st.get_rom_bank()
   }));
-  let (cart, pmsg) = match r {
-    Ok(1) => ("0".to_string(), "-".to_string()),
-    Ok(0x1f) => ("1".to_string(), "-".to_string()),
-    Ok(0x7f) => ("3".to_string(), "-".to_string()),
-    Ok(n) => (format!("{}", 1000 + n), "-".to_string()),
-    Err(p) => {
+  let mut twin_bytes = bytes;
+  twin_bytes[OFF_ROM] = 0x06;
+  twin_bytes[OFF_RAM] = 0x03;
+  let twin = header_from(twin_bytes);
+  let r = std::panic::catch_unwind(std::panic::AssertUnwindSafe(|| {
+    let mut st = twin.create_cart_state();
+    st.write_rom(0x2000, 0x7f);
+    st.get_rom_bank()
+  }));
+  let (cart, pmsg) = match (own, r) {
+    (Ok(_), Ok(1)) => ("0".to_string(), "-".to_string()),
+    (Ok(_), Ok(0x1f)) => ("1".to_string(), "-".to_string()),
+    (Ok(_), Ok(0x7f)) => ("3".to_string(), "-".to_string()),
+    (Ok(_), Ok(n)) => (format!("{}", 1000 + n), "-".to_string()),
+    (Err(p), Err(_)) => {
       let m = if let Some(s) = p.downcast_ref::<&str>() { s.to_string() }
               else if let Some(s) = p.downcast_ref::<String>() { s.clone() } else { "?".to_string() };
       ("panic".to_string(), m.replace(' ', "_"))
     }
+    _ => ("inconsistent".to_string(), "-".to_string()),
   };
   writeln!(w, "c19.hdr hdr={} | valid={} banks={} rombytes={} rambytes={} cart={} pmsg={}",
     hex(&bytes), valid as u8, banks, romb, ramb, cart, pmsg).unwrap();
